@@ -337,6 +337,7 @@ class Interp:
   def __init__(self, real, gate=None):
     self.real, self.gate = real, gate or (lambda: None)
     self.obs = []
+    self.obs_g = []      # the getter of every observation, in order
     self.ncatch = 0
   def run(self, p):
     t = p[0]
@@ -345,6 +346,7 @@ class Interp:
     if t == 'obs':
       self.gate()
       self.obs.append(self.real.observe(p[1]))
+      self.obs_g.append(p[1])
     elif t == 'raise':
       raise Boom()
     elif t == 'seq':
@@ -397,6 +399,7 @@ def impl_single(real, prog):
   def body():
     it = Interp(real)
     exc = it.top(prog)
+    real.last_getters = it.obs_g
     return [0, it.obs, exc, real.raw_local(), real.raw_global()]
   try:
     return in_fresh_thread(body)
@@ -419,9 +422,9 @@ def impl_threads(real, progs, sched):
     try:
       gate()                       # wait to be started by the controller
       exc = it.top(progs[i])
-      res[i] = (it.obs, exc, real.raw_local())
+      res[i] = (it.obs, exc, real.raw_local(), it.obs_g)
     except BaseException as e:     # pylint: disable=broad-except
-      res[i] = ([], [4] + [ord(c) for c in repr(e)[:40]], [])
+      res[i] = ([], [4] + [ord(c) for c in repr(e)[:40]], [], [])
     done[i] = True
     arrived[i].release()
   ths = [threading.Thread(target=worker, args=(i,)) for i in range(n)]
@@ -442,6 +445,7 @@ def impl_threads(real, progs, sched):
   for t in ths:
     t.join()
   out = [1, [r[0] for r in res], [r[1] for r in res], [r[2] for r in res], real.raw_global()]
+  real.last_thread_getters = [r[3] for r in res]
   real.reset_globals()
   return out
 
@@ -452,7 +456,7 @@ def expected_inside(kind, arg, before, stack):
   if kind in ('flag', 'timeit', 'dyn'):
     return arg                                            # innermost wins
   if kind == 'dyng':
-    mine = [a for k, a in stack if k == 'dyn']           # a per-thread function of this thread takes precedence
+    mine = [e[1] for e in stack if e[0] == 'dyn']           # a per-thread function of this thread takes precedence
     return mine[-1] if mine else arg
   if kind == 'perm':
     return before if before is not None else arg          # outermost wins
@@ -484,6 +488,7 @@ class Oracle:
     self.real = real
     self.hits = []        # (signature, what)
     self.fresh = None
+    self.tainted = set()  # getters already reported as not restored by an inner scope (not blamed on the enclosing ones again)
   def hit(self, sig, what):
     if not any(s == sig for s, _ in self.hits):
       self.hits.append((sig, what))
@@ -523,11 +528,11 @@ class Oracle:
         inside = real.snapshot()
         if inside[gk] != exp:
           self.hit('C17/effective/%s/getter-returns-%s' % (name, self.describe_value(inside[gk], exp, before[gk], self.fresh[gk])),
-                   'inside `with %s(%r)` (enclosing scopes %r) the getter returns %r, the documented nesting rule gives %r' % (name, arg, stack, inside[gk], exp))
+                   'inside `with %s(%r)` (enclosing scopes %r) the getter returns %r, the documented nesting rule gives %r' % (name, arg, [(e[2], e[1]) for e in stack], inside[gk], exp))
         for k2 in before:
           if k2 != gk and inside[k2] != before[k2]:
             self.hit('C17/interference/%s/changes-%s' % (name, k2), 'entering %s changed the unrelated getter %s from %r to %r' % (name, k2, before[k2], inside[k2]))
-        self.run(body, stack + [(kind, arg)])
+        self.run(body, stack + [(kind, arg, name)])
     except BaseException as e:   # pylint: disable=broad-except
       exc = e
     after = real.snapshot()
@@ -539,11 +544,12 @@ class Oracle:
     elif exc is not None and not isinstance(exc, Boom) and not (isinstance(exc, AssertionError) and self.expected_assert(body)):
       self.hit('C17/exit-raises/%s/%s' % (name, type(exc).__name__), 'leaving %s(%r) raised %r' % (name, arg, exc))
     for k2 in before:
-      if after[k2] != before[k2]:
+      if after[k2] != before[k2] and k2 not in self.tainted:
+        self.tainted.add(k2)
         d = self.describe_value(after[k2], inside[k2] if inside else None, None, self.fresh[k2])
         self.hit('C17/restore/%s/%s-left-at-%s' % (name, k2.replace('"', ''), d),
                  'after leaving `with %s(%r)` %s (enclosing scopes %r) the getter %s returns %r, before entering it returned %r'
-                 % (name, arg, how, stack, k2, after[k2], before[k2]))
+                 % (name, arg, how, [(e[2], e[1]) for e in stack], k2, after[k2], before[k2]))
     if exc is not None:
       raise exc
   def expected_assert(self, body):
@@ -564,7 +570,7 @@ def oracle_single(real, prog):
       pass
     end = real.snapshot()
     for k in end:
-      if end[k] != o.fresh[k]:
+      if end[k] != o.fresh[k] and k not in o.tainted:
         o.hit('C17/restore/program-end/%s' % k.replace('"', ''), 'after the whole program the getter %s returns %r instead of %r' % (k, end[k], o.fresh[k]))
   try:
     in_fresh_thread(body)
@@ -591,20 +597,23 @@ def thread_local_positions(prog):
 
 
 def oracle_threads(real, progs, sched, impl_out):
-  """No-leak: what a thread reads through the thread-local getters equals what it reads when run alone."""
+  """No-leak: what a thread reads through the thread-local getters equals what it reads when run alone.
+  Must be called right after impl_threads (uses the getters recorded by that run)."""
   hits = []
   kinds = [prog_stats(p)[3] for p in progs]
+  inter_g = real.last_thread_getters
   for i, p in enumerate(progs):
     others_global = any('dyng' in k for j, k in enumerate(kinds) if j != i)
     if 'dyn' in kinds[i] and others_global:
       continue        # control flow may legitimately depend on the other thread (documented process-wide manager)
     solo = impl_single(real, p)
-    gs = thread_local_positions(p)
+    solo_g = real.last_getters
     a, b = impl_out[1][i], solo[1]
-    if len(a) != len(b) or len(a) != len(gs):
-      hits.append(('C17/leak/control-flow-differs', 'thread %d makes %d observations in the interleaving and %d alone' % (i, len(a), len(b))))
+    if inter_g[i] != solo_g or impl_out[2][i] != solo[2]:
+      hits.append(('C17/leak/control-flow-differs', 'thread %d observes getters %s (exception flag %s) in the interleaving and %s (%s) alone'
+                   % (i, inter_g[i], impl_out[2][i], solo_g, solo[2])))
       continue
-    for g, x, y in zip(gs, a, b):
+    for g, x, y in zip(solo_g, a, b):
       gk = g[0] if isinstance(g, list) else g
       if gk in ('dyn', 'loadtypes'):
         continue      # reads the process-wide store: allowed to differ
@@ -875,8 +884,10 @@ def run(ctx):
     nev = sum(2 * prog_stats(p)[1] + len(thread_local_positions(p)) for p in ps)
     sched = [rng.randrange(n) for _ in range(rng.randint(nev // 2, nev + 2))]
     tcases.append((ps, sched))
+  thread_hits = []
   for ps, sched in tcases:
     out = impl_threads(real, ps, sched)
+    thread_hits.append(oracle_threads(real, ps, sched, out))
     trs.append([1, [wire_prog(p) for p in ps], sched]); impl_outs.append(out); descrs.append(dict(kind='threads', progs=ps, sched=sched))
     ctx.count(canon([ps, sched]), nontrivial=sum(1 for p in ps if prog_stats(p)[1] > 0) >= 2, kind='threads',
               sample=dict(kind='threads', programs=ps, schedule=sched, observations=out[1]) if len(ctx.samples) < 5 else None)
@@ -909,10 +920,30 @@ def run(ctx):
     hits = oracle_single(real, d['prog'])
     if hits:
       report(hits, dict(kind='single', prog=d['prog']), fails=True)
-  for (ps, sched), d, out in zip(tcases, [x for x in descrs if x['kind'] == 'threads'], [o for o, x in zip(impl_outs, descrs) if x['kind'] == 'threads']):
+  for (ps, sched), hits in zip(tcases, thread_hits):
     oracle_evals += 1
-    report(oracle_threads(real, ps, sched, out), dict(kind='threads', progs=ps, sched=sched))
+    report(hits, dict(kind='threads', progs=ps, sched=sched))
   report(oracle_propagation(real), dict(kind='propagation'))
+  # the flag managers the property names are exercised by the oracle even when the translator no longer finds them in flags.py
+  missing = [f for f in FALLBACK_INFO['flags'] if f['scope'] not in [g['scope'] for g in info['flags']]]
+  if missing:
+    info2 = dict(info, flags=info['flags'] + missing)
+    real2 = Real(info2)
+    ctx.extra['flags_not_found_by_translator'] = [f['scope'] for f in missing]
+    for j in range(nflags, nflags + len(missing)):
+      cmj = ['flag', j]
+      for p in sweep_cases(nflags + len(missing)):
+        if prog_stats(p)[3] == {'flag'} and canon(cmj) in canon(p):
+          hits = oracle_single(real2, p)
+          if hits:
+            for sig, what in hits:
+              ctx.hit(sig, what, dict(kind='single', prog=p, flags=[f['scope'] for f in info2['flags']]))
+      g = ['obs', cmj]
+      for a in (True, False):
+        ps = [['scope', cmj, a, seq(g, g)], seq(g, g, g)]
+        for sched in ([0, 1, 0, 1, 0, 1], [1, 0, 0, 1, 1, 0]):
+          for sig, what in oracle_threads(real2, ps, sched, impl_threads(real2, ps, sched)):
+            ctx.hit(sig, what, dict(kind='threads', progs=ps, sched=sched, flags=[f['scope'] for f in info2['flags']]))
   ctx.extra['oracle_evaluations'] = oracle_evals
 
   # ---- targeted search when something no longer checks and nothing failed yet --------------------------------------
@@ -943,6 +974,10 @@ def run(ctx):
 
 def replay(ctx, rp):
   info, _ = get_info()
+  want = rp['case'].get('flags')
+  if want and want != [f['scope'] for f in info['flags']]:
+    by = {f['scope']: f for f in FALLBACK_INFO['flags'] + info['flags']}
+    info = dict(info, flags=[by[n] for n in want if n in by])
   real = Real(info)
   c = rp['case']
   if c.get('kind') == 'single':
